@@ -16,7 +16,11 @@ Six kinds of cases, all against the REAL `SubprocessTestCaseExecutor` / `TestCas
 * `fix`    — the real `_create_variable_binding` + `_fix_assertion_trace` on real test cases, traces and
   assertion objects with identical, renamed, colliding, partial and foreign bindings.
 * `pickle` — the real `_fix_result_for_pickle` + `_create_new_reference_bindings` on results holding
-  unpicklable exceptions and assertion values.
+  unpicklable exceptions and assertion values, next to picklable values that are NOT equal to their pickled copy
+  (float NaN, complex NaN alone and in tuples/lists/dicts) and values a lossy transport would change (-0.0, ±inf,
+  extremes).  The model gets what `dill.copy` does to every single item (`round_trip`, measured here) and computes
+  the answer of `dill.detect.baditems` itself (`Model/SubprocessPickle.lean`).  The real batches get the same
+  treatment; subject module `n` returns / holds such values.
 * `config` — configuration transport: the real `execute_multiple` / `_setup_subprocess_execution` /
   `_execute_test_cases_in_subprocess` / `_fallback_on_failure` with the operating system replaced by a
   synchronous stand-in for `multiprocess` (the "child" runs `target(*args)` in this process).  Recorded: the
@@ -293,11 +297,92 @@ def _reset():
     pass
 '''
 
-SUTS = {"a": SUT_A, "b": SUT_B, "c": SUT_C, "e": SUT_E, "d": SUT_D, "s": SUT_S}
+# values that are not equal to themselves (NaN) or easily lost in transport (-0.0, inf, denormals): returned,
+# held in public fields of watched objects, in class-level and module-level fields, inside containers
+SUT_N = '''
+MISSING = float("nan")
+EDGE = -0.0
+
+
+class Summary:
+    worst = float("nan")
+    top = float("inf")
+
+    def __init__(self, count: int) -> None:
+        self.count = count
+        self.mean = float("nan") if count % 3 == 0 else count / 3
+        self.low = -0.0
+        self.phase = complex("nan") if count % 2 == 0 else complex(count, -0.0)
+
+    def spread(self, scale: int) -> float:
+        if self.count == 0:
+            return self.mean
+        return float(scale) / self.count
+
+    def grow(self, by: int) -> int:
+        self.count += by
+        self.mean = float("nan") if self.count % 3 == 0 else self.count / 3
+        return self.count
+
+
+def mean(values: list[int]) -> float:
+    if not values:
+        return float("nan")
+    return sum(values) / len(values)
+
+
+def gap(flag: bool) -> float:
+    big = float("inf")
+    if flag:
+        return big - big
+    return -big
+
+
+def tiny(n: int) -> float:
+    if n % 2 == 0:
+        return -0.0
+    return 5e-324
+
+
+def phase(n: int) -> complex:
+    if n % 2 == 0:
+        return complex("nan")
+    return complex(0.0, float("inf"))
+
+
+def pair(n: int) -> tuple[complex, int]:
+    return (complex("nan"), n)
+
+
+def table(n: int) -> dict[str, complex]:
+    return {"a": complex("nan"), "b": complex(n)}
+
+
+def series(n: int) -> list[float]:
+    return [float("nan"), -0.0, float(n)]
+
+
+def make(n: int) -> Summary:
+    return Summary(n)
+
+
+def _reset():
+    pass
+'''
+
+SUTS = {"n": SUT_N, "a": SUT_A, "b": SUT_B, "c": SUT_C, "e": SUT_E, "d": SUT_D, "s": SUT_S}
 OBS_POOL = ["ObsA", "ObsB", "ObsC", "RemoteAssertionTraceObserver"]
 
 ASSERT_KINDS = ["TypeName", "Float", "Object", "IsInstance", "CollectionLength", "Exception"]
 EXC_NAMES = ["ValueError", "KeyError", "ZeroDivisionError", "TypeError"]
+
+
+# observed values: ordinary ones, values that are not equal to themselves (NaN: their pickled copy is not equal
+# to the original either), and values a lossy transport would change (-0.0, infinities, extremes)
+FLOAT_PAYLOADS = ["0.5", "1.0", "-2.25", "nan", "nan", "nan", "-0.0", "inf", "-inf", "5e-324",
+                  "1.7976931348623157e+308"]
+OBJECT_PAYLOADS = ["1", "'s'", "[1, 2]", "None", "(nan+0j)", "(nan+0j)", "(1, (nan+0j))", "{'k': (nan+0j)}",
+                   "[(1+nanj), 2]", "(1+infj)", "{'a': [1, (2,)]}"]
 
 
 class _Gen:
@@ -327,6 +412,53 @@ def canon_assertion(a) -> dict:
     else:  # an assertion class this check does not know: keep it visible
         payload = repr(a)
     return {"kind": k, "source": a.source, "payload": payload}
+
+
+_EVAL_NS = {"nan": float("nan"), "inf": float("inf"), "nanj": complex(0.0, float("nan")),
+            "infj": complex(0.0, float("inf")), "__builtins__": {}}
+
+
+def round_trip(obj) -> str:
+    """What `dill.copy` does to one item, looked at the way `dill.detect.pickles` looks at it (measured here,
+    item by item, independently of pynguin): 'raises' (an error dill traps), 'equal' (copy == original),
+    'sameType' (not equal, same type: values that are not equal to themselves) or 'otherType'.  Any other
+    exception propagates (then `baditems` itself raises and pynguin clears the field)."""
+    import warnings
+    import dill
+    try:
+        pik = dill.copy(obj)
+        with warnings.catch_warnings():
+            warnings.simplefilter("ignore")
+            same = bool(pik == obj)
+    except (TypeError, AssertionError, NotImplementedError, dill.PicklingError, dill.UnpicklingError):
+        return "raises"
+    if same:
+        return "equal"
+    if type(pik) == type(obj) or repr(type(pik)) == repr(type(obj)):  # noqa: E721 - as dill does
+        return "sameType"
+    return "otherType"
+
+
+def trips_of(result) -> dict:
+    """The `probes` object of the driver for one real result: the round trip of every exception (by position)
+    and of every assertion (by canonical form), in the order `_fix_result_for_pickle` chains them."""
+    def probe(pairs):
+        try:
+            return {"trips": {"items": [[k, round_trip(v)] for k, v in pairs]}}
+        except Exception:  # noqa: BLE001 - `baditems` would raise as well: the clear branch
+            return "raised"
+    return {"excs": probe(list(result.exceptions.items())),
+            "asserts": probe([(canon_assertion(a), a) for st in result.assertion_trace.trace.values() for a in st]),
+            "auxOut": []}
+
+
+def bad_positions(probes) -> list:
+    """Positions of the exceptions that do not survive `dill.copy` with their type (input of the oracle's
+    classification of the known finding)."""
+    ex = probes["excs"]
+    if ex == "raised":
+        return []
+    return [p for p, rt in ex["trips"]["items"] if rt not in ("equal", "sameType")]
 
 
 def canon_trace(trace) -> list:
@@ -375,7 +507,7 @@ def make_assertion(d):
         return ass.FloatAssertion(src, float(pl))
     if k == "CollectionLength":
         return ass.CollectionLengthAssertion(src, int(pl))
-    return ass.ObjectAssertion(src, _mk_gen() if pl == "<gen>" else eval(pl))  # noqa: S307 - own literals
+    return ass.ObjectAssertion(src, _mk_gen() if pl == "<gen>" else eval(pl, dict(_EVAL_NS)))  # noqa: S307 - own literals
 
 
 def make_trace(spec):
@@ -415,7 +547,8 @@ class C31(PropertyCheck):
     prop_id = "C31"
     level = "proof"
     prop_modules = ["PynguinModel.Props.C31"]
-    extra_modules = ["PynguinModel.Model.SubprocessAlign"]
+    extra_modules = ["PynguinModel.Model.SubprocessAlign", "PynguinModel.Model.SubprocessConfig",
+                     "PynguinModel.Model.SubprocessPickle"]
     driver = "Driver/C31.lean"
     n_quick = 280
     n_thorough = 4800
@@ -423,8 +556,10 @@ class C31(PropertyCheck):
     real_every = {"quick": 70, "thorough": 60}
     slow_every = {"quick": 150, "thorough": 150}
     rule = ("every 70th (quick) / 60th (thorough) case is a batch of 2-5 test cases from the real TestFactory on "
-            "one of 4 small modules, with regression assertions (some falsified), run by a real forked child and "
-            "in-process, 1 in 6 of them with a child-only crash; every 150th case (+ 1 corpus case) is a batch with a "
+            "one of 5 small modules (one of them returns / holds NaN, -0.0, infinities and complex NaN in floats, "
+            "fields of watched objects, class and module fields), with regression assertions (some falsified), run "
+            "by a real forked child and in-process, 1 in 6 of them with a child-only crash (+ 3 written-out corpus "
+            "batches on the NaN module); every 150th case (+ 1 corpus case) is a batch with a "
             "sleeping test of known run time (slower than one per-statement slice, >= 12x inside its budget; "
             "thorough tier also 2x over budget) run by a real forked child and in-process under distinct time "
             "settings; the rest: 38 % rebinding cases on real traces, 30 % scripted-child plumbing cases (all crash "
@@ -450,7 +585,8 @@ class C31(PropertyCheck):
     ]
     trusted_base_extra = [
         "harness/c31.py: the canonical form of an ExecutionResult, the scripted child of the plumbing cases, "
-        "dill.detect.baditems as the source of the picklability answers handed to the model",
+        "dill.copy + `==` + `type` per item (round_trip) as the source of the round-trip outcomes handed to the model, "
+        "which computes the answer of dill.detect.baditems itself",
     ]
 
     _ready = False
@@ -547,7 +683,7 @@ class C31(PropertyCheck):
         if self._ncase % self.real_every[self.tier] == 0:
             crash = rng.random() < 1 / 6
             self.count("kind:real-crash" if crash else "kind:real")
-            return {"kind": "real", "sut": "e" if crash else rng.choice(["a", "a", "b", "c"]),
+            return {"kind": "real", "sut": "e" if crash else rng.choice(["a", "n", "b", "c", "n"]),
                     "seed": rng.randrange(1 << 30), "k": rng.randint(2, 3) if crash else rng.randint(2, 5),
                     "crash": crash, "falsify": rng.randrange(1 << 30)}
         k = rng.random()
@@ -622,7 +758,7 @@ class C31(PropertyCheck):
                 else:
                     src = rng.choice(pool) if pool else "other_0"
                     pl = {"TypeName": "builtins.generator", "IsInstance": "builtins.int",
-                          "Float": repr(rng.choice([0.5, 1.0, -2.25])), "Object": repr(rng.choice([1, "s", [1, 2], None])),
+                          "Float": rng.choice(FLOAT_PAYLOADS), "Object": rng.choice(OBJECT_PAYLOADS),
                           "CollectionLength": repr(rng.randint(0, 3))}[kind]
                     d = {"kind": kind, "source": src, "payload": pl}
                 key = vcommon.jdump(d)
@@ -1103,9 +1239,8 @@ class C31(PropertyCheck):
                     time.sleep(max(0.0, sum(sp["naps"]) / 1000.0 + 0.5 - el))
             bindings = [[[p, v] for p, v in SubprocessTestCaseExecutor._create_variable_binding(t).items()]
                         for t in tests]
-            bad_excs = [[p for p, e in r.exceptions.items() if dill.detect.baditems([e])] for r in loc_res]
-            bad_asserts = [[canon_assertion(a) for s in r.assertion_trace.trace.values() for a in s
-                            if dill.detect.baditems([a])] for r in loc_res]
+            trips = [trips_of(r) for r in loc_res]
+            bad_excs = [bad_positions(pr) for pr in trips]
         finally:
             SubprocessTestCaseExecutor._setup_subprocess_execution = orig_setup
             SubprocessTestCaseExecutor._fallback_on_failure = orig_fallback
@@ -1114,7 +1249,7 @@ class C31(PropertyCheck):
                 sys.meta_path.remove(sut["hook"].hook)
         sizes = [t.size() for t in tests]
         return {"sub": sub_out, "loc": [canon_result(r) for r in loc_res], "bindings": bindings, "badExcs": bad_excs,
-                "badAsserts": bad_asserts, "reaches": [False] * len(tests), "batchCrash": False, "loop": False,
+                "trips": trips, "reaches": [False] * len(tests), "batchCrash": False, "loop": False,
                 "code": [t.to_code() for t in tests], "sizes": sizes,
                 "durs": [sum(sp["naps"]) for sp in case["tests"]],
                 "bounds": [min(case["maxT"], case["perStmt"] * max(n, 1)) for n in sizes],
@@ -1212,7 +1347,21 @@ class C31(PropertyCheck):
             else:
                 randomness.RNG.seed(case["seed"])
                 tests = []
-                for _ in range(case["k"] * 6):
+                if case.get("stmts"):     # corpus: the batch is written out (`{m}` = alias of the subject module)
+                    import libcst as cst
+                    import pynguin.testcase.testcase as tc
+                    from pynguin.utils.naming import get_module_alias
+                    alias = get_module_alias(sut["name"])
+                    for lines in case["stmts"]:
+                        t = tc.TestCase()
+                        for src in lines:
+                            src = src.replace("{m}", alias)
+                            head = src.split(" = ", 1)[0] if " = " in src else None
+                            bound = head if head is not None and head.isidentifier() else None
+                            t.add_statement(tc.Statement(node=cst.parse_module(src + "\n").body[0],
+                                                         bound_variable=bound))
+                        tests.append(t)
+                for _ in range(0 if case.get("stmts") else case["k"] * 6):
                     t = sut["tcfactory"].get_test_case()
                     if t.size() > 0:
                         tests.append(t)
@@ -1279,10 +1428,10 @@ class C31(PropertyCheck):
             loc_out = [canon_result(r) for r in loc_res]
             bindings = [[[p, v] for p, v in SubprocessTestCaseExecutor._create_variable_binding(t).items()]
                         for t in tests]
-            # what dill says about the in-process exceptions / assertions (input of the model)
-            bad_excs = [[p for p, e in r.exceptions.items() if dill.detect.baditems([e])] for r in loc_res]
-            bad_asserts = [[canon_assertion(a) for s in r.assertion_trace.trace.values() for a in s
-                            if dill.detect.baditems([a])] for r in loc_res]
+            # what `dill.copy` does to every in-process exception / assertion (input of the model, which then
+            # computes what `dill.detect.baditems` answers the way the code calls it)
+            trips = [trips_of(r) for r in loc_res]
+            bad_excs = [bad_positions(pr) for pr in trips]
         finally:
             SubprocessTestCaseExecutor._setup_subprocess_execution = orig_setup
             logging.disable(logging.NOTSET)
@@ -1291,7 +1440,7 @@ class C31(PropertyCheck):
         self.extra_coverage["real_batches"] += 1
         self.extra_coverage["real_tests_compared"] += len(tests)
         return {"sub": sub_out, "loc": loc_out, "bindings": bindings, "badExcs": bad_excs,
-                "badAsserts": bad_asserts, "reaches": reaches, "batchCrash": batch_crash, "loop": loop,
+                "trips": trips, "reaches": reaches, "batchCrash": batch_crash, "loop": loop,
                 "code": [t.to_code() for t in tests],
                 "nassert": sum(len(st.assertions) for t in tests for st in t.statements())}
 
@@ -1310,8 +1459,8 @@ class C31(PropertyCheck):
         if kind == "fix":
             return vcommon.jdump({"fix": {"stmts": case["stmts"], "trace": case["trace"], "new": case["new"]}})
         if kind == "pickle":
-            probes = {"excs": {"bad": {"items": case["genExcs"]}}, "asserts": {"bad": {"items": case["badAsserts"]}},
-                      "auxOut": []}
+            # what `dill.copy` does to every item of the very result `_impl_pickle` builds, measured item by item
+            probes = trips_of(make_result(case["res"], gen_excs=case["genExcs"]))
             return vcommon.jdump({"pickle": {"res": case["res"], "probes": probes}})
         if kind == "plumb":
             tests = [{"bound": [[i, v] for i, v in enumerate(t["stmts"]) if v is not None],
@@ -1331,19 +1480,16 @@ class C31(PropertyCheck):
         if kind == "slow":
             cfg = {"maxTimeout": case["maxT"], "perStatement": case["perStmt"], "props": 1, "provider": 1,
                    "remoteObs": ["RemoteAssertionTraceObserver", "RemoteAssertionVerificationObserver"], "obs": []}
-            tests = [{"bound": b, "run": loc, "size": n, "dur": d,
-                      "probes": {"excs": {"bad": {"items": be}}, "asserts": {"bad": {"items": ba}}, "auxOut": []}}
-                     for b, loc, n, d, be, ba in zip(io["bindings"], io["loc"], io["sizes"], io["durs"],
-                                                     io["badExcs"], io["badAsserts"])]
+            tests = [{"bound": b, "run": loc, "size": n, "dur": d, "probes": pr}
+                     for b, loc, n, d, pr in zip(io["bindings"], io["loc"], io["sizes"], io["durs"], io["trips"])]
             return vcommon.jdump({"timed": {"c": {"cfg": cfg, "tests": tests}}})
         if io["loop"]:   # the only test never answers: the child is killed after the time-out
             crash_batch, crash_single = "noResults", ["noResults"]
         else:
             crash_batch = "recvFailed" if io["batchCrash"] else "child"
             crash_single = ["recvFailed" if r else "child" for r in io["reaches"]]
-        tests = [{"bound": b, "run": loc,
-                  "probes": {"excs": {"bad": {"items": be}}, "asserts": {"bad": {"items": ba}}, "auxOut": []}}
-                 for b, loc, be, ba in zip(io["bindings"], io["loc"], io["badExcs"], io["badAsserts"])]
+        tests = [{"bound": b, "run": loc, "probes": pr}
+                 for b, loc, pr in zip(io["bindings"], io["loc"], io["trips"])]
         return vcommon.jdump({"exec": {"c": {"tests": tests, "batch": crash_batch,
                                               "singles": crash_single if len(tests) > 1 else []}}})
 
@@ -1571,7 +1717,9 @@ class C31(PropertyCheck):
         if kind == "fix":
             return vcommon.jdump(case) if case["variant"] not in ("same", "none") and case["trace"] else None
         if kind == "pickle":
-            return vcommon.jdump(case) if case["genExcs"] or case["badAsserts"] else None
+            nonrefl = sum(1 for _, items in case["res"]["trace"] for d in items if "nan" in d["payload"])
+            self.count("pickle:assertions-on-values-not-equal-to-their-copy", nonrefl)
+            return vcommon.jdump(case) if case["genExcs"] or case["badAsserts"] or nonrefl else None
         if kind == "plumb":
             reps = [case["batch"], *case["singles"]]
             return vcommon.jdump(case) if case["tests"] and (isinstance(case["batch"], str) or "err" in io) else None
@@ -1586,6 +1734,9 @@ class C31(PropertyCheck):
         n_tr = sum(len(e[1]) for r in io["loc"] for e in r["trace"])
         n_pred = sum(len(r["cov"]["preds"]) for r in io["loc"])
         self.count("real:assertions-in-traces", n_tr)
+        self.count("real:assertions-on-values-not-equal-to-their-copy",
+                   sum(1 for pr in io.get("trips", []) if isinstance(pr["asserts"], dict)
+                       for _, rt in pr["asserts"]["trips"]["items"] if rt == "sameType"))
         self.count("real:exceptions", sum(len(r["excs"]) for r in io["loc"]))
         self.count("real:verification-entries", sum(len(e[1]) for r in io["loc"] for e in r["vfailed"] + r["verror"]))
         self.count("real:lost-to-crash", sum(io["reaches"]))
